@@ -33,6 +33,7 @@ const (
 	tyBytes
 	tyPtr
 	tyF64 // a float64, carried as its bit pattern (a uint64 value on the Lean side)
+	tyU32  // a uint32, carried as a uint64 below 2^32; only loaded, compared and used as a constant
 	tyKeys // map[string]struct{} used as a set of keys
 	tyFunc // a function-valued parameter (callback)
 )
@@ -45,6 +46,7 @@ var goSrcFuncs = []string{
 	"ParsedJson.stringByteAt", "Iter.StringBytes", "Iter.Bool", "Object.NextElementBytes",
 	"Iter.Float", "Iter.FloatFlags", "Iter.Int", "Iter.Uint",
 	"Array.ForEach", "Array.DeleteElems", "Array.FirstType", "Object.ForEach", "Object.DeleteElems",
+	"isValidTrueAtom", "isValidFalseAtom", "isValidNullAtom", "parseNumber",
 }
 
 type goBlock struct {
@@ -95,7 +97,15 @@ func ptrKind(e ast.Expr) (string, bool) {
 	return id.Name, ok
 }
 
+type lconstV struct {
+	val string
+	ty  gty
+}
+
 type gsTr struct {
+	shadowed []string         // names the current block has redefined over an enclosing scope's variable
+	lconst map[string]lconstV // constants declared in the function
+	poison map[string]bool   // outer variables whose slot an inner scope has reused (shadowing): not to be read again
 	outer  map[string]gty    // variables of the enclosing scopes (at the entry of the innermost block)
 	kinds  map[string]string // struct-typed names (receiver, pointer parameters, locals) → kind
 	named  []string          // named results, in order
@@ -133,8 +143,10 @@ func tyOfTypeExpr(e ast.Expr) gty {
 			return tyBytes // a string is its bytes
 		case "float64":
 			return tyF64
-		case "FloatFlags":
+		case "FloatFlags", "FloatFlag":
 			return tyU64
+		case "uint32":
+			return tyU32
 		}
 	case *ast.ArrayType:
 		if t.Len == nil {
@@ -291,6 +303,13 @@ func (t *gsTr) expr(e ast.Expr, want gty) (string, gty) {
 	case *ast.ParenExpr:
 		return t.expr(x.X, want)
 	case *ast.BasicLit:
+		if x.Kind == token.CHAR {
+			r, err := strconv.Unquote(x.Value)
+			if err != nil || len([]rune(r)) != 1 {
+				gsDie(e, "character literal")
+			}
+			return t.untyped(e, strconv.Itoa(int([]rune(r)[0])), want)
+		}
 		if x.Kind != token.INT {
 			gsDie(e, "literal kind")
 		}
@@ -315,10 +334,19 @@ func (t *gsTr) expr(e ast.Expr, want gty) (string, gty) {
 			return "(.bool false /- nil -/)", tyErr
 		}
 		if ty, ok := t.locals[x.Name]; ok {
+			if t.poison[x.Name] {
+				gsDie(e, "variable read after an inner scope shadowed it (one store slot per name)")
+			}
 			if ty == tyPtr {
 				return fmt.Sprintf("(.bool true /- %s -/)", x.Name), tyPtr
 			}
 			return fmt.Sprintf("(.v %s)", strconv.Quote(x.Name)), ty
+		}
+		if c, ok := t.lconst[x.Name]; ok {
+			if c.ty == tyUntyped {
+				return t.untyped(e, c.val, want)
+			}
+			return t.untyped(e, c.val, c.ty) // a typed constant is printed with its own type
 		}
 		if s, ty, ok := t.constExpr(x); ok {
 			if ty == tyUntyped {
@@ -397,7 +425,7 @@ func (t *gsTr) expr(e ast.Expr, want gty) (string, gty) {
 				return fmt.Sprintf("(.idxB %s %s)", a, idx), tyU8
 			}
 		}
-		if id, ok := x.X.(*ast.Ident); ok && (id.Name == "TagToType" || id.Name == "tagOpenToClose") {
+		if id, ok := x.X.(*ast.Ident); ok && (id.Name == "TagToType" || id.Name == "tagOpenToClose" || id.Name == "isNumberRune" || id.Name == "structuralOrWhitespaceNegated") {
 			idx, ity := t.expr(x.Index, tyU8)
 			if ity != tyU8 {
 				gsDie(e, "table index type")
@@ -471,6 +499,54 @@ func (t *gsTr) expr(e ast.Expr, want gty) (string, gty) {
 				gsDie(e, "append operands")
 			}
 			return fmt.Sprintf("(.appendB %s %s)", a, b), tyBytes
+		}
+		switch f := nows(src(x.Fun)); {
+		case f == "binary.LittleEndian.Uint32" && len(x.Args) == 1:
+			a, aty := t.expr(x.Args[0], tyUnk)
+			if aty != tyBytes {
+				gsDie(e, "Uint32 operand")
+			}
+			return fmt.Sprintf("(.le32 %s)", a), tyU32
+		case f == "bytes.Equal" && len(x.Args) == 2:
+			a, aty := t.expr(x.Args[0], tyBytes)
+			b, bty := t.expr(x.Args[1], tyBytes)
+			if aty != tyBytes || bty != tyBytes {
+				gsDie(e, "bytes.Equal operands")
+			}
+			return fmt.Sprintf("(.eqB %s %s)", a, b), tyBool
+		case f == "[]byte" && len(x.Args) == 1:
+			if lit, ok := x.Args[0].(*ast.BasicLit); ok && lit.Kind == token.STRING {
+				str, err := strconv.Unquote(lit.Value)
+				if err != nil {
+					gsDie(e, "string literal")
+				}
+				var bs []string
+				for _, c := range []byte(str) {
+					bs = append(bs, strconv.Itoa(int(c)))
+				}
+				return fmt.Sprintf("(.litB [%s] /- %s -/)", strings.Join(bs, ", "), strings.ReplaceAll(lit.Value, "-/", "- /")), tyBytes
+			}
+		case f == "unsafeBytesToString" && len(x.Args) == 1:
+			// a string sharing the bytes of the slice: a string is its bytes
+			a, aty := t.expr(x.Args[0], tyBytes)
+			if aty != tyBytes {
+				gsDie(e, "unsafeBytesToString operand")
+			}
+			return a, tyBytes
+		case f == "isNotStructuralOrWhitespace" && len(x.Args) == 1:
+			fd := t.p.funcs["isNotStructuralOrWhitespace"]
+			if fd == nil || nows(src(fd.Body)) != "{returnstructuralOrWhitespaceNegated[c]}" {
+				gsDie(e, "isNotStructuralOrWhitespace has an unexpected body")
+			}
+			a, aty := t.expr(x.Args[0], tyU8)
+			if aty != tyU8 {
+				gsDie(e, "argument type")
+			}
+			return fmt.Sprintf("(.tbl \"structuralOrWhitespaceNegated\" %s)", a), tyU8
+		case f == "errors.Is" && len(x.Args) == 2 && nows(src(x.Args[1])) == "strconv.ErrRange":
+			if id, ok := x.Args[0].(*ast.Ident); ok && t.locals[id.Name] == tyErr {
+				return fmt.Sprintf("(.v %s)", strconv.Quote(id.Name+".range")), tyBool
+			}
 		}
 		if nows(src(x.Fun)) == "binary.LittleEndian.Uint64" && len(x.Args) == 1 {
 			a, aty := t.expr(x.Args[0], tyUnk)
@@ -599,6 +675,8 @@ func (t *gsTr) untyped(e ast.Expr, v string, want gty) (string, gty) {
 		return fmt.Sprintf("(.u64 %s)", v), tyU64
 	case tyU8:
 		return fmt.Sprintf("(.u8 %s)", v), tyU8
+	case tyU32:
+		return fmt.Sprintf("(.u64 %s)", v), tyU32
 	case tyF64:
 		if v == "0" {
 			return "(.u64 0 /- 0.0 -/)", tyF64
@@ -626,6 +704,9 @@ func isUntypedConst(t *gsTr, e ast.Expr) bool {
 		if _, isLocal := t.locals[x.Name]; isLocal {
 			return false
 		}
+		if c, ok := t.lconst[x.Name]; ok {
+			return c.ty == tyUntyped
+		}
 		if _, ok := t.p.cexprs[x.Name]; ok {
 			return t.constType(x.Name) == tyUntyped
 		}
@@ -634,7 +715,7 @@ func isUntypedConst(t *gsTr, e ast.Expr) bool {
 }
 
 var binNames = map[token.Token]string{
-	token.ADD: ".add", token.SUB: ".sub", token.AND: ".and", token.OR: ".or", token.SHR: ".shr", token.SHL: ".shl",
+	token.ADD: ".add", token.SUB: ".sub", token.AND: ".and", token.OR: ".or", token.SHR: ".shr", token.SHL: ".shl", token.XOR: ".xor",
 	token.EQL: ".eq", token.NEQ: ".ne", token.LSS: ".lt", token.LEQ: ".le", token.GTR: ".gt", token.GEQ: ".ge",
 }
 
@@ -725,6 +806,9 @@ func (t *gsTr) binary(x *ast.BinaryExpr, want gty) (string, gty) {
 			return fmt.Sprintf("(.bin %s %s %s)", name, a, b), tyBool
 		}
 		return fmt.Sprintf("(.bin %s %s %s)", name, a, b), tyBool
+	}
+	if at == tyU8 && (x.Op == token.AND || x.Op == token.OR) {
+		return fmt.Sprintf("(.bin %s %s %s)", name, a, b), at // bit flags in a byte
 	}
 	if at != tyInt && at != tyU64 {
 		gsDie(x, "arithmetic operand type")
@@ -917,13 +1001,19 @@ func (t *gsTr) block(list []ast.Stmt, ind string) string {
 		saved[k] = v
 	}
 	prevOuter := t.outer
+	prevShadowed := t.shadowed
 	t.outer = saved
+	t.shadowed = nil
 	defer func() {
 		t.locals = map[string]gty{}
 		for k, v := range saved {
 			t.locals[k] = v
 		}
+		for _, n := range t.shadowed {
+			t.poison[n] = true // the outer variable's slot was overwritten: reading it again would be wrong
+		}
 		t.outer = prevOuter
+		t.shadowed = prevShadowed
 	}()
 	var parts []string
 	for _, s := range list {
@@ -945,6 +1035,38 @@ func (t *gsTr) stmt(s ast.Stmt, ind string) string {
 				}
 			}
 		}
+		// v, err := strconv.ParseInt(s, 10, 64) | ParseUint(s, 10, 64) | ParseFloat(s, 64): modelled library functions
+		if x.Tok == token.DEFINE && len(x.Lhs) == 2 && len(x.Rhs) == 1 {
+			if call, ok := x.Rhs[0].(*ast.CallExpr); ok {
+				f := nows(src(call.Fun))
+				var rest string
+				for _, a := range call.Args[1:] {
+					rest += nows(src(a)) + ","
+				}
+				lib := map[string]struct {
+					name string
+					ty   gty
+				}{"strconv.ParseInt|10,64,": {"ParseInt", tyInt}, "strconv.ParseUint|10,64,": {"ParseUint", tyU64}, "strconv.ParseFloat|64,": {"ParseFloat", tyF64}}
+				if l, ok := lib[f+"|"+rest]; ok && len(call.Args) >= 1 {
+					a, aty := t.expr(call.Args[0], tyBytes)
+					v, ok1 := x.Lhs[0].(*ast.Ident)
+					er, ok2 := x.Lhs[1].(*ast.Ident)
+					if aty != tyBytes || !ok1 || !ok2 {
+						gsDie(s, "library call shape")
+					}
+					for _, id := range []*ast.Ident{v, er} {
+						if _, shadow := t.outer[id.Name]; shadow {
+							t.shadowed = append(t.shadowed, id.Name)
+						}
+					}
+					t.locals[v.Name] = l.ty
+					t.locals[er.Name] = tyErr
+					delete(t.poison, v.Name)
+					delete(t.poison, er.Name)
+					return fmt.Sprintf(".extAssign [%s, %s, %s] %s [%s]", strconv.Quote(v.Name), strconv.Quote(er.Name), strconv.Quote(er.Name+".range"), strconv.Quote(l.name), a)
+				}
+			}
+		}
 		// _, ok := m[string(k)]
 		if x.Tok == token.DEFINE && len(x.Lhs) == 2 && len(x.Rhs) == 1 {
 			if ix, ok := x.Rhs[0].(*ast.IndexExpr); ok {
@@ -959,8 +1081,9 @@ func (t *gsTr) stmt(s ast.Stmt, ind string) string {
 						gsDie(s, "map key")
 					}
 					if _, shadow := t.outer[okv.Name]; shadow {
-						gsDie(s, "definition shadows a variable of an enclosing scope")
+						t.shadowed = append(t.shadowed, okv.Name)
 					}
+					delete(t.poison, okv.Name)
 					t.locals[okv.Name] = tyBool
 					return fmt.Sprintf(".assign %s (.inK (.v %s) %s)", strconv.Quote(okv.Name), strconv.Quote(m.Name), k)
 				}
@@ -980,8 +1103,9 @@ func (t *gsTr) stmt(s ast.Stmt, ind string) string {
 						}
 						if id, isId := l.(*ast.Ident); isId && x.Tok == token.DEFINE {
 							if _, shadow := t.outer[id.Name]; shadow {
-								gsDie(s, "definition shadows a variable of an enclosing scope")
+								t.shadowed = append(t.shadowed, id.Name)
 							}
+							delete(t.poison, id.Name)
 							if old, had := t.locals[id.Name]; had && old != rtys[k] {
 								gsDie(s, "variable redefined with another type")
 							}
@@ -1025,14 +1149,17 @@ func (t *gsTr) stmt(s ast.Stmt, ind string) string {
 				dw = tyInt // the default type of an untyped integer constant
 			}
 			r, ty := t.expr(x.Rhs[0], dw)
-			if ty != tyInt && ty != tyU64 && ty != tyU8 && ty != tyBool && ty != tyBytes && ty != tyF64 {
+			if ty != tyInt && ty != tyU64 && ty != tyU8 && ty != tyBool && ty != tyBytes && ty != tyF64 && ty != tyU32 {
 				gsDie(s, "type of defined variable")
 			}
 			if _, shadow := t.outer[id.Name]; shadow {
-				gsDie(s, "definition shadows a variable of an enclosing scope")
+				t.shadowed = append(t.shadowed, id.Name)
 			}
+			delete(t.poison, id.Name)
 			if old, ok := t.locals[id.Name]; ok && old != ty {
-				gsDie(s, "variable redefined with another type")
+				if _, shadow := t.outer[id.Name]; !shadow {
+					gsDie(s, "variable redefined with another type")
+				}
 			}
 			t.locals[id.Name] = ty
 			return fmt.Sprintf(".assign %s %s", strconv.Quote(id.Name), r)
@@ -1081,16 +1208,14 @@ func (t *gsTr) stmt(s ast.Stmt, ind string) string {
 				gsDie(s, "assignment types differ")
 			}
 			return fmt.Sprintf(".assign %s %s", strconv.Quote(name), r)
-		case token.ADD_ASSIGN, token.SUB_ASSIGN:
+		case token.ADD_ASSIGN, token.SUB_ASSIGN, token.OR_ASSIGN, token.AND_ASSIGN:
 			name, ty := t.lvalue(x.Lhs[0])
 			r, rty := t.expr(x.Rhs[0], ty)
-			if rty != ty || (ty != tyInt && ty != tyU64) {
+			bitop := x.Tok == token.OR_ASSIGN || x.Tok == token.AND_ASSIGN
+			if rty != ty || (ty != tyInt && ty != tyU64 && !(bitop && ty == tyU8)) || (bitop && ty == tyInt) {
 				gsDie(s, "compound assignment types")
 			}
-			op := ".add"
-			if x.Tok == token.SUB_ASSIGN {
-				op = ".sub"
-			}
+			op := map[token.Token]string{token.ADD_ASSIGN: ".add", token.SUB_ASSIGN: ".sub", token.OR_ASSIGN: ".or", token.AND_ASSIGN: ".and"}[x.Tok]
 			return fmt.Sprintf(".assign %s (.bin %s (.v %s) %s)", strconv.Quote(name), op, strconv.Quote(name), r)
 		}
 		gsDie(s, "assignment operator")
@@ -1185,6 +1310,28 @@ func (t *gsTr) stmt(s ast.Stmt, ind string) string {
 		return fmt.Sprintf(".switch %s [\n%s    %s]\n%s    %s", tag, ind, strings.Join(cases, ",\n"+ind+"    "), ind, dflt)
 	case *ast.DeclStmt:
 		gd, ok := x.Decl.(*ast.GenDecl)
+		if ok && gd.Tok == token.CONST {
+			for _, sp := range gd.Specs {
+				vs := sp.(*ast.ValueSpec)
+				if len(vs.Names) != 1 || len(vs.Values) != 1 {
+					gsDie(s, "constant declaration shape")
+				}
+				val := vs.Values[0]
+				ty := tyUntyped
+				if vs.Type != nil {
+					ty = tyOfTypeExpr(vs.Type)
+				} else if c, ok := val.(*ast.CallExpr); ok && len(c.Args) == 1 {
+					if cty := tyOfTypeExpr(c.Fun); cty != tyUnk {
+						ty, val = cty, c.Args[0]
+					}
+				}
+				if ty == tyUnk {
+					gsDie(s, "constant type")
+				}
+				t.lconst[vs.Names[0].Name] = lconstV{val: t.p.eval(val, 0).String(), ty: ty}
+			}
+			return ".ite (.bool true) [] [] /- " + strings.ReplaceAll(stmtText(s), "-/", "- /") + " -/"
+		}
 		if !ok || gd.Tok != token.VAR || len(gd.Specs) != 1 {
 			gsDie(s, "declaration")
 		}
@@ -1204,7 +1351,8 @@ func (t *gsTr) stmt(s ast.Stmt, ind string) string {
 		if x.Tok != token.DEFINE || x.Value == nil {
 			gsDie(s, "range shape")
 		}
-		if k, ok := x.Key.(*ast.Ident); !ok || k.Name != "_" {
+		k, ok := x.Key.(*ast.Ident)
+		if !ok {
 			gsDie(s, "range key")
 		}
 		v, ok := x.Value.(*ast.Ident)
@@ -1216,6 +1364,10 @@ func (t *gsTr) stmt(s ast.Stmt, ind string) string {
 			gsDie(s, "range operand")
 		}
 		t.locals[v.Name] = tyU8
+		if k.Name != "_" {
+			t.locals[k.Name] = tyInt
+			return fmt.Sprintf(".rangeIB %s %s %s %s", strconv.Quote(k.Name), strconv.Quote(v.Name), e, t.block(x.Body.List, ind))
+		}
 		return fmt.Sprintf(".rangeB %s %s %s", strconv.Quote(v.Name), e, t.block(x.Body.List, ind))
 	case *ast.ForStmt:
 		if x.Init != nil || x.Post != nil {
@@ -1382,20 +1534,27 @@ func genGoSrc(p *pkgInfo, out string) {
 		if !ok {
 			die("gosrc: function %s not found", fn)
 		}
-		t := &gsTr{p: p, fn: fn, iters: map[string]bool{}, locals: map[string]gty{}, kinds: map[string]string{}}
+		t := &gsTr{p: p, fn: fn, iters: map[string]bool{}, locals: map[string]gty{}, kinds: map[string]string{},
+			lconst: map[string]lconstV{}, poison: map[string]bool{}}
 		t.iterFieldTypes()
 		t.frees = map[string]gty{}
-		if fd.Recv == nil || len(fd.Recv.List) != 1 || len(fd.Recv.List[0].Names) != 1 {
-			die("gosrc: %s: receiver", fn)
-		}
-		rkind, isPtr := ptrKind(fd.Recv.List[0].Type)
-		if !isPtr {
-			die("gosrc: %s: receiver must be a pointer to Iter, Object, Array or ParsedJson", fn)
-		}
-		t.recv = fd.Recv.List[0].Names[0].Name
-		t.kinds[t.recv] = rkind
-		if rkind == "Iter" {
-			t.iters[t.recv] = true
+		rkind := "Iter"
+		if fd.Recv == nil {
+			rkind = "" // a plain function
+		} else {
+			if len(fd.Recv.List) != 1 || len(fd.Recv.List[0].Names) != 1 {
+				die("gosrc: %s: receiver", fn)
+			}
+			var isPtr bool
+			rkind, isPtr = ptrKind(fd.Recv.List[0].Type)
+			if !isPtr {
+				die("gosrc: %s: receiver must be a pointer to Iter, Object, Array or ParsedJson", fn)
+			}
+			t.recv = fd.Recv.List[0].Names[0].Name
+			t.kinds[t.recv] = rkind
+			if rkind == "Iter" {
+				t.iters[t.recv] = true
+			}
 		}
 		var params []string
 		var ptrParams []string
@@ -1444,7 +1603,9 @@ func genGoSrc(p *pkgInfo, out string) {
 			body = "[\n  " + strings.Join(inits, ",\n  ") + ",\n  " + strings.TrimPrefix(strings.TrimPrefix(body, "[\n"), "  ")
 		}
 		extra := ""
-		if rkind != "Iter" {
+		if rkind == "" {
+			extra += ", fields := []"
+		} else if rkind != "Iter" {
 			extra += ", fields := " + kindFields(rkind)
 		}
 		if len(ptrParams) > 0 && fn != "Iter.AdvanceIter" {
@@ -1463,7 +1624,8 @@ func genGoSrc(p *pkgInfo, out string) {
 		if !ok {
 			die("gosrc: function %s not found", bs.fn)
 		}
-		t := &gsTr{p: p, fn: bs.fn, iters: map[string]bool{}, locals: map[string]gty{}, tapes: bs.tapes, frees: bs.frees, rtys: bs.rtys}
+		t := &gsTr{p: p, fn: bs.fn, iters: map[string]bool{}, locals: map[string]gty{}, tapes: bs.tapes, frees: bs.frees, rtys: bs.rtys,
+			kinds: map[string]string{}, lconst: map[string]lconstV{}, poison: map[string]bool{}}
 		t.iterFieldTypes()
 		for n, ty := range bs.locals {
 			t.locals[n] = ty
